@@ -94,7 +94,8 @@ PROPS = {
                     "prediction over the matrix IOMod x {plain, TLS} x epoll mode, plus direct oracles for order, close, foreign bytes, callbacks",
             "note": "proof on model, partial: TLS record layer, real scheduling and I/O-mode dispatch are exercised, not modelled; "
                     "the model is above C05/C06/C07/C09/C11/C20 (their conclusions are hypotheses of the composition; for C05 the queue part of Pipeline is proved to "
-                    "refine ExecQ in the non-blocking modes, c10_queue_refines_execq; the parser and the response writer stay cited).  Clause status: 'answers each request exactly once' is VIOLATED on the tree "
+                    "refine ExecQ in the non-blocking modes, c10_queue_refines_execq, and in the blocking modes, where Execute calls the job "
+                    "inline, c10_queue_sync / c10_sync_inline state the queue clause directly; the parser and the response writer stay cited).  Clause status: 'answers each request exactly once' is VIOLATED on the tree "
                     "for closing requests whose response the kernel did not take in full (finding c10-close-drops-backlog, "
                     "c10_pipeline_counterexample); it is proved for histories without a closing request under any kernel behaviour "
                     "(c10_pipeline_keepalive), for any history when the kernel takes every write in full (c10_pipeline), and otherwise only "
@@ -114,7 +115,11 @@ PROPS = {
                     "exactly one response per request on the current connection).  (5) C05: c10_queue_refines_execq is a forward "
                     "simulation of Pipeline's queue / cur / closed fields by ExecQ.step (every enabled Pipeline action is matched by the "
                     "ExecQ actions it stands for; C05's one-at-a-time / FIFO / exactly-once theorems are transported to `handled`) for "
-                    "cfg.sync = false only: in the blocking modes Execute runs the job inline and there is no ExecQ; the translation "
+                    "cfg.sync = false; in the blocking modes Execute runs the job inline and there is no ExecQ: c10_queue_sync (all "
+                    "schedules: pending jobs = requests fin..next-1, nothing refused, handled = 0..fin-1 plus the running one) and "
+                    "c10_sync_inline (schedules in which a request is completed only while no job is pending: the queue never holds more "
+                    "than the running job) are theorems about Pipeline alone — that the SyncExecutor is `f(); return true` is read off "
+                    "the source, not modelled; the translation "
                     "execTrace is a definition of this proof (which ExecQ actions a Pipeline action stands for), not something observed; "
                     "C06/C07 (parse) and C09 (pieces) remain hypotheses without a refinement theorem",
             "technique": "Lean 4 proof (invariants over all interleavings, simulation for non-interference) + differential correspondence on real sockets"},
